@@ -110,6 +110,9 @@ class StripWhitespaceFilter:
         return self._stripws_default(tlist)
 
     def _stripws_parenthesis(self, tlist):
+        if len(tlist.tokens) < 2:
+            # a later grouping pass wrapped the whole parenthesis: "(as)"
+            return self._stripws_default(tlist)
         while tlist.tokens[1].is_whitespace:
             tlist.tokens.pop(1)
         while tlist.tokens[-2].is_whitespace:
